@@ -89,11 +89,12 @@ theorem replay_server_only_if_marked (st : AuthState) (ip : Option Nat) (enough 
         · simp [hs] at h
           split at h <;> simp at h
 
-/-- **wiring**: the authenticator tests the server mark before the replay cache; the response writer is
-    given the matched entry's generator (so response salts carry that entry's mark); MakeCipherEntry
-    marks iff enough entropy remains. -/
-theorem wiring : Gen.Wiring.authServerSaltBeforeReplayCache = true ∧ Gen.Wiring.authWriterUsesEntrySaltGenerator = true ∧
-    Gen.Wiring.markedIffEnoughEntropy = true := by decide
+/-- **wiring**: MakeCipherEntry marks iff enough entropy remains (generated fact; also proved about the translated
+    function, `code_marked_iff_enough_entropy`).  That the authenticator tests the server mark before the replay cache and
+    gives the response writer the matched entry's generator used to be two more syntactic facts; both are now proved
+    about the translated authenticator (`code_server_salt_is_refused_before_the_cache`,
+    `code_accepted_connection_writes_marked_salts`). -/
+theorem wiring : Gen.Wiring.markedIffEnoughEntropy = true := by decide
 
 /- non-vacuity -/
 example : isServerSalt (fun p => p.reverse ++ [1, 2, 3, 4]) 4 (getSalt (fun p => p.reverse ++ [1, 2, 3, 4]) 4 [9, 8, 7, 6, 5]) = true := by decide
